@@ -489,10 +489,21 @@ theorem positional_rest_of_zero_displacements
     intro i hi
     rw [hxdi, nth_tab _ hi]
     simp only [smul_zero', v3_add_zero]
+  have hnorm : st.x_i.map (fun t => (⟨t.pos, normalize4 t.rot⟩ : Tf K)) = st.x_i := by
+    conv_rhs => rw [← List.map_id st.x_i]
+    apply List.map_congr_left
+    intro t ht
+    obtain ⟨i, hi, rfl⟩ := List.mem_iff_getElem.mp ht
+    have hu := hxiunit i (by rw [← hxilen]; exact hi)
+    have hnth : nth st.x_i i = st.x_i[i] := by
+      simp only [nth, List.getD_eq_getElem?_getD, List.getElem?_eq_getElem hi]; rfl
+    rw [hnth] at hu
+    rw [normalize4_unit' _ hq.hsqrt hu]
+    rfl
   -- put the step together
   unfold Positional.step
   simp only [hxdd, hint, htw, hst1, hpu, hcf, Positional.resolvePosition, Positional.resolveVelocity,
-    List.isEmpty_nil, if_true, hproj, hxdv, hc.hj, hc.hjd, hc.hap, hc.hac, hc.hinv]
+    List.isEmpty_nil, if_true, hnorm, hproj, hxdv, hc.hj, hc.hjd, hc.hap, hc.hac, hc.hinv]
 
 theorem linkSlices_qd_mem {α : Type} (ts : List LinkType) :
     ∀ (q qd : List α) (ds : List (DofP α)), ∀ l ∈ Kin.linkSlices ts q qd ds, ∀ t ∈ l.qd, t ∈ qd := by
